@@ -98,6 +98,15 @@ int main(int argc, char **argv) {
                 memset(a, 0, n); memset(b, 0, n); if (k < n) b[k] = 1; arith_all(a, b, n, 1);
             }
             for (int t = 0; t < 6; t++) { vrng_bytes(&R, a, n); vrng_bytes(&R, b, n); arith_all(a, b, n, (unsigned) t * 3); cmp_all(a, b, n, (unsigned) t); }
+            /* differences that cancel under XOR / ADD accumulation: the same delta at two (or four) positions a word, half block or
+             * block apart (k = 1, 2, 4, 8, 16, 32, 48) - an accumulator must OR the differences, never combine them otherwise */
+            if (n >= 2) { static const size_t KS[] = { 1, 2, 4, 8, 16, 32, 48 };
+                for (int ki = 0; ki < 7; ki++) { size_t k = KS[ki]; if (k >= n) continue;
+                    for (int t = 0; t < 3; t++) { size_t p = vrng_below(&R, (uint32_t) (n - k)); unsigned char dlt = (unsigned char) (1 + vrng_below(&R, 255));
+                        vrng_bytes(&R, a, n); memcpy(b, a, n); b[p] ^= dlt; b[p + k] ^= dlt; cmp_all(a, b, n, (unsigned) (p % 16));
+                        memset(b, 0, n); b[p] = dlt; b[p + k] = dlt; cmp_all(b, b, n, (unsigned) k % 16);                   /* is_zero with two equal non-zero bytes */
+                        memset(b, 0, n); b[p] = dlt; b[p + k] = (unsigned char) (0 - dlt); cmp_all(b, b, n, 3);             /* ... and two bytes summing to zero */
+                        if (p + 3 * k < n) { memcpy(b, a, n); b[p] ^= dlt; b[p + k] ^= dlt; b[p + 2 * k] ^= dlt; b[p + 3 * k] ^= dlt; cmp_all(a, b, n, 5); } } } }
         }
         /* memzero on every (offset, len) of a 40-byte region */
         for (size_t off = 0; off <= 40; off++) for (size_t len = 0; off + len <= 40; len += (len < 18 ? 1 : 5)) {
